@@ -31,6 +31,11 @@ func runC06(c *Ctx) {
 	c06R4(c, "C06.R4")
 	c06R5(c, "C06.R5")
 	c06R6(c, "C06.R6")
+	// "for every client clock within the accepted window" the server recovers the identity: the window the server
+	// applies must be the documented strict two-sided one (a window shifted or narrowed by rounding refuses such clients)
+	c.importing = "C07"
+	c07R2(c, "C07.R2")
+	c.importing = ""
 }
 
 var authSpec = []layoutEntry{
